@@ -175,6 +175,42 @@ def checked(rep, c):
                     used = str_get_over(inner, params) if inner is not None else None
                     if used is not None and used == stored:
                         ok = True
+            # (c) the same test spelled out: `a <= b && input.is_char_boundary(a) && input.is_char_boundary(b)`
+            #     (is_char_boundary is false past the end of the input), as an `if` condition or as the receiver of
+            #     `cond.then_some(Self {..})` / `cond.then(|| Self {..})`
+            lets_b = hirq.lets(b["body"])
+
+            def spelled(cnd):
+                cnd = peel(cnd)
+                hops = 0
+                while kind(cnd) == "Path" and cnd.get("res") == "local" and cnd["id"] in lets_b and hops < 3:
+                    cnd = peel(lets_b[cnd["id"]][0])
+                    hops += 1
+                cjs, stack = [], [cnd]
+                while stack:
+                    x = peel(stack.pop())
+                    if kind(x) == "Binary" and x["op"] == "&&":
+                        stack += [x["l"], x["r"]]
+                    else:
+                        cjs.append(x)
+                bounded = set()
+                ordered = False
+                for x in cjs:
+                    if kind(x) == "MethodCall" and x["m"] == "is_char_boundary" and x["args"]:
+                        lid = hirq.local_id(x["args"][0])
+                        if lid in params:
+                            bounded.add(lid)
+                    if kind(x) == "Binary" and x["op"] in ("<=", ">="):
+                        l, rr = hirq.local_id(x["l"]), hirq.local_id(x["r"])
+                        if l in params and rr in params and l != rr:
+                            ordered = True
+                return bounded == stored and (ordered or len(stored) < 2) and len(stored) > 0
+            for g in ctx.guards(lit):
+                if g[0] == "if" and g[2] is True and spelled(g[1]):
+                    ok = True
+            for (a, k2, i) in ctx.ancestors(lit):
+                if a.get("k") == "MethodCall" and a["m"] in ("then_some", "then") and k2 == "args" and spelled(a["recv"]):
+                    ok = True
             if not ok:
                 r.violation(key, where(lit),
                             "%s builds %s from its offset parameters on a path where `input.get(..)` over exactly those "
@@ -447,6 +483,12 @@ def pairpos(rep, c):
                     "`self.start` (the pair's start): line_col no longer describes where the pair begins")
 
 
+def in_error_module(b):
+    """a method of pest::error::Error or a function of the error module (or a private module nested in it)"""
+    return b is not None and (b.get("impl_self") == "pest::error::Error" or str(b.get("path", "")).startswith("pest::error::")) \
+        and "::tests::" not in str(b.get("path", ""))
+
+
 # ------------------------------------------------------------------ LINESTOP
 
 def linestop(rep, c):
@@ -536,7 +578,7 @@ def gutter(rep, c):
     LCL = "pest::error::LineColLocation"
     cands = []
     for b in c.bodies:
-        if b.get("impl_self") != "pest::error::Error" or b.get("body") is None or b.get("exp") or b.get("impl_trait"):
+        if not in_error_module(b) or b.get("body") is None or b.get("exp") or b.get("impl_trait"):
             continue
         if "String" not in str(b.get("output", b.get("ret", ""))) and "String" not in str(b["body"].get("ty", "")):
             continue
@@ -549,7 +591,17 @@ def gutter(rep, c):
             any(kind(x) == "MethodCall" and x["m"] in ("repeat", "push") for x in walk(b["body"]))
         reads_other = any(kind(x) == "Field" and x["name"] in ("variant", "path", "line", "continued_line")
                           for x in walk(b["body"]))
-        if has_len and fmt and blanks and not reads_other:
+        def sees_location(f, depth=0):
+            if any(kind(x) == "Match" and "LineColLocation" in str(x.get("sty", "")) for x in walk(f["body"])):
+                return True
+            if depth < 1:
+                for x in walk(f["body"]):
+                    if kind(x) in ("Call", "MethodCall") and isinstance(callee(x), str):
+                        h = c.fn(callee(x))
+                        if in_error_module(h) and h is not f and h.get("body") is not None and sees_location(h, depth + 1):
+                            return True
+            return False
+        if has_len and fmt and blanks and not reads_other and sees_location(b):
             cands.append(b)
     if not cands:
         r.lost("the gutter-width function of pest::error::Error (formats a line number, returns that many blanks)")
@@ -582,7 +634,7 @@ def gutter(rep, c):
                             out.append((arm, all(used)))
                 if kind(x) in ("Call", "MethodCall") and depth < 2:
                     h = c.fn(callee(x)) if isinstance(callee(x), str) else None
-                    if h is not None and h.get("impl_self") == "pest::error::Error" and h is not fn and h.get("body") is not None:
+                    if h is not None and in_error_module(h) and h is not fn and h.get("body") is not None:
                         out += span_arm_uses(h, depth + 1)
             return out
         arms = span_arm_uses(b)
@@ -608,7 +660,7 @@ def marker(rep, c):
     # the function that yields the reported (line, column) of the start: returns a pair and matches on the location
     starts = set()
     for b in c.bodies:
-        if b.get("impl_self") != "pest::error::Error" or b.get("body") is None or b.get("exp") or b.get("impl_trait"):
+        if not in_error_module(b) or b.get("body") is None or b.get("exp") or b.get("impl_trait"):
             continue
         if str(b["body"].get("ty", "")).replace(" ", "") == "(usize,usize)" and any(
                 kind(x) == "Match" and "LineColLocation" in str(x.get("sty", "")) for x in walk(b["body"])):
@@ -618,7 +670,7 @@ def marker(rep, c):
         return any(kind(x) in ("Call", "MethodCall") and callee(x) in starts for x in walk(e))
     cands = []
     for b in c.bodies:
-        if b.get("impl_self") != "pest::error::Error" or b.get("body") is None or b.get("exp") or b.get("impl_trait"):
+        if not in_error_module(b) or b.get("body") is None or b.get("exp") or b.get("impl_trait"):
             continue
         if any(kind(x) == "Lit" and x.get("v") in ("^", "'^'") for x in walk(b["body"])) and calls_start(b["body"]):
             cands.append(b)
